@@ -3,6 +3,7 @@ mod allocprobe;
 mod common;
 mod domains;
 mod props;
+mod refserde;
 mod refsha;
 mod tree;
 
